@@ -365,6 +365,11 @@ def run_case(case):
             viol.append((sig + ':artim-not-honoured', 'still in Sta%d after 10.5 s of peer silence (%s)' % (fin['state'] + 1, where)))
         if fin['state'] == 0 and fin['sock'] == 'open':
             viol.append((sig + ':idle-open', 'idle with the transport open (%s)' % where))
+        if fin['state'] == 0 and fin['timer']:
+            viol.append((sig + ':artim-running-when-idle', 'the provider is idle (Sta1) and ARTIM is still running (%s)' % where))
+        gone = [x for st in env.steps for x in st['inds'] if x[0] == 'A-ABORT']
+        if len(gone) > 1:
+            viol.append((sig + ':told-twice', 'the local user was told %d times that the association is gone: %r (%s)' % (len(gone), gone, where)))
         if indicated and not told_gone and fin['state'] == 0:
             viol.append((sig + ':user-not-told', 'association had been indicated, provider is idle again, but no abort/release indication was given (%s)' % where))
     key = (state, case['seed'], case['mut'], case['ending'])
